@@ -87,6 +87,30 @@ func driveC12(args []string) error {
 			stats["size"]++
 		}
 	}
+	// aspect ratios that differ from the target's by a hair (well above rounding, far below one percent): the
+	// viewBox aspect must still be kept and the alignment fractions still applied to the remaining slack
+	for _, q := range [][4]int{{2100, 2101, 500, 500}, {2101, 2100, 500, 500}, {4000, 4001, 1600, 1600}, {4001, 4000, 1600, 1600},
+		{64, 64, 3840, 3839}, {64, 64, 3839, 3840}, {3000, 3001, 777, 777}, {16, 9, 1921, 1080}, {16, 9, 1920, 1081}, {1000, 999, 2047, 2047}} {
+		for _, ax := range as {
+			for _, ay := range as {
+				vb4 := [4]int{0, 0, 4 * q[0], 4 * q[1]}
+				vb := ivg.ViewBox{MinX: 0, MinY: 0, MaxX: float32(q[0]), MaxY: float32(q[1])}
+				fdx, fdy := float32(q[2]), float32(q[3])
+				for _, kind := range []string{"meet", "slice"} {
+					var a, b, cc, d float32
+					if kind == "meet" {
+						a, b, cc, d = vb.AspectMeet(fdx, fdy, float32(ax)/4, float32(ay)/4)
+					} else {
+						a, b, cc, d = vb.AspectSlice(fdx, fdy, float32(ax)/4, float32(ay)/4)
+					}
+					sh.Next().Emit(fitEv{Ev: "fit", Kind: kind, Vb4: vb4, E1: 0, D4: [2]int{4 * q[2], 4 * q[3]}, E2: 0, A4: [2]int{ax, ay},
+						Vb: fs(0, 0, vb.MaxX, vb.MaxY), D: fs(fdx, fdy), A: fs(float32(ax)/4, float32(ay)/4), Got: fs(a, b, cc, d)})
+					stats["fit"]++
+					stats["near_ratio"]++
+				}
+			}
+		}
+	}
 	// the viewBox's own size as the target, at several origins (nothing to scale)
 	for _, o := range origins {
 		for vw := 1; vw <= 12; vw++ {
